@@ -64,10 +64,14 @@ DECIDED = {
             "need <= 8 (9 thorough); of the big-decimal fallback the two kernels within reach: Decimal::try_add_digit never writes outside "
             "the digit buffer, Decimal::round is round-half-even on every trimmed decimal of <= 6 digits. "
             "Table-driven float construction, by SMT over the compiler's MIR (crate 'smt'): for every decimal exponent in the stated set "
-            "(quick: both ends of the guard, every 8th exponent and all of -10..30; thorough: every exponent in -345..345) and EVERY "
-            "significand 1 <= w < 10^19, every path of parse_float that returns from_u64_bits(raw) with raw computed by "
-            "parse_floating_normal_fast has raw == bits of the double nearest (ties to even) to w*10^e, exponent field in 1..=2046 "
-            "(finite, normal), and the sign asked for; exponents outside the guard never reach that constructor."),
+            "(quick: both ends of the table-product guard, every 16th exponent and all of -6..24; thorough: every exponent in -345..345) and "
+            "EVERY significand 1 <= w < 10^19 with no digit dropped, every path of parse_float that returns a double built by interpreted "
+            "integer code - parse_floating_normal_fast, and for exponents >= -290 the Eisel-Lemire constructor compute_float + "
+            "biased_fp_to_float that takes over when the table product is ambiguous or the exponent is outside its guard - returns the "
+            "bits of the double nearest (ties to even) to w*10^e, finite and normal, with the sign asked for; and parse_float rejects as "
+            "non-finite only when the exact value rounds to infinity. The SSE digit reader simd_str2int (the 16-digit fraction reader of "
+            "target-cpu=native builds) equals the decimal value of the digits for every need 1..16, every position and class of the "
+            "first non-digit and every byte value (SMT over its MIR with lane-wise intrinsic models)."),
     "C08": ("Raw numbers: deserialize_rawnumber (bare and quoted) captures exactly the span the number grammar delimits and rejects "
             "everything else; the validating number skipper == grammar; non-finite floats -> null; the integer clause by reduction: "
             "every digit string itoa can emit is read back exactly (C07 integer harnesses), itoa's contract trusted; the read-back half "
@@ -96,7 +100,8 @@ DECIDED = {
     "C17": ("(a) every vector primitive of every backend file (sse2.rs, v256.rs, v512.rs as selected on this target; avx2.rs and v128.rs "
             "#[path]-included into an external crate) equals its lane-wise scalar definition for all inputs; (b) prefix_xor and "
             "get_nonspace_bits of arch/x86_64.rs equal arch/fallback.rs and the scalar definition on all masks/blocks, simd_str2int of "
-            "sonic-number's x86_64 backend equals the fallback under the callers' precondition; (c) the rest of the code is "
+            "sonic-number's x86_64 backend equals the fallback under the callers' precondition (Kani for need <= 8, 9 thorough; every need "
+            "1..16 by SMT over its MIR, s_simd_str2int); (c) the rest of the code is "
             "backend-independent text, so equality of observable results follows by congruence."),
     "C18": ("Both publish-once caches under every two-reader interleaving at atomic-step granularity, including spurious weak-CAS "
             "failure. Inner::parse_from: every read returns the one cached decoding, every decoding ever created ends with no outstanding "
@@ -127,12 +132,13 @@ OUTSIDE = {
             "and a failing writer end to end (harnesses w_compound_shape / w_failing_writer ran out of memory)", "BytesMut writers", "MapKeySerializer",
             "strings >= 32 bytes (block path of format_string: b_format_string_w28 needs 21 minutes and is not registered)",
             "the release-only over-read branch"],
-    "C07": ["Eisel-Lemire compute_float, the Clinger path parse_float_fast beyond the fixed exponents above (f64 arithmetic) and the "
-            "big-decimal fallback parse_long_mantissa: > 19 digits, truncated digits, subnormals are NOT covered (paths through them are "
-            "counted as opaque by the SMT runs)", "the dev-profile overflow assertion at `add + 1` in parse_floating_normal_fast (neither "
+    "C07": ["the Clinger path parse_float_fast beyond the fixed exponents above (f64 arithmetic), the big-decimal fallback "
+            "parse_long_mantissa, Eisel-Lemire for exponents < -290 (subnormal results) and every literal with > 19 significant digits "
+            "or dropped digits (trunc): NOT covered (paths through them are counted as opaque by the SMT runs); that Eisel-Lemire "
+            "*decides* (does not fall back) is not claimed either", "the dev-profile overflow assertion at `add + 1` in parse_floating_normal_fast (neither "
             "solver decides it; release builds wrap there by design)", "that parse_number passes 1 <= w < 10^19 and the right exponent to "
             "parse_float is decided only for texts <= 7 bytes (u_parse_number_grammar_n7)", "typed narrowing by serde's primitive "
-            "visitors", "the 16-digit SIMD fraction reader inside parse_number_fraction on inputs >= 16 bytes (kernel only: x_num_str2int)"],
+            "visitors", "the call site of the 16-digit SIMD fraction reader inside parse_number_fraction on inputs >= 16 bytes (the kernel is decided, by Kani for need <= 9 and by SMT for 1..16)"],
     "C08": ["ryu digit generation and its read-back for f64/f32", "128-bit integers", "Serialize for RawNumber / numeric accessors of RawNumber"],
     "C09": ["parse_string_inplace loops and padding", "parse_string_escaped / parse_escaped_char (Vec traffic) end to end",
             "lossy repair of invalid UTF-8 bytes (String::from_utf8_lossy path)", "strings > 40 bytes / more than one interesting window"],
